@@ -441,6 +441,9 @@ static void gen_fault_hs(Fault *f, Rng *g, const HonestOut *o)
 		f->a = rng_below(g, 11);
 		f->b = (int64_t)(rng_u64(g) >> 40);
 		if (f->a == 0) f->b = (int64_t[]){ 0, 10, 20, 40, 47, 80 }[rng_below(g, 6)];
+		/* a ChangeCipherSpec right after a Hello is where "middlebox compatibility" (RFC 8446 D.4) puts one: this
+		 * library neither sends nor announces it, so here it is an injected record like any other */
+		if (rng_chance(g, 1, 5)) { f->a = 2; f->dir = (int)rng_below(g, 2); f->rec = 0; }
 		break;
 	case F_REPLAY: {
 		/* copy of any record already on the wire (either direction) when the target passes */
